@@ -379,6 +379,12 @@ def r11(ctx):
     """'nothing is released merely because ... the connection dropped': see engine.session_start_resets."""
     session_start_resets(ctx)
 
+def r12(ctx):
+    """'unless displaced by an overflow that it reports': the overflow flag is dropped only when no event type is still at capacity;
+    that test covers every type (C13.R5, shared code)."""
+    import c13
+    c13.r5(ctx)
+
 RULES = [
     ("C03.R1", "T5", "records are removed only by clear_written/insert; clear_written only via the two confirm sites", r1),
     ("C03.R2", "T2", "release sites dominated by sequence-matched confirms", r2),
@@ -391,4 +397,5 @@ RULES = [
     ("C03.R9", "T8+T2", "relative-time events: offset = time - CTO, only when representable and of equal time quality", r9),
     ("C03.R10", "T8/T2", "event storage: list sized over all types; unlinking splices both neighbours, each under its own test", r10),
     ("C03.R11", "T2", "the selection is reset before a session's first await (a pre-empted session is dropped without clean-up)", r11),
+    ("C03.R12", "T2+T4", "an overflow that displaces an event stays reported until no type is full (shared with C13.R5)", r12),
 ]
